@@ -171,6 +171,8 @@ class Gen:
             return ["filter", self.str_(d - 1), self.pick(["upper", "lower", "trim", "capitalize"]), [], []]
         if k < 0.70:
             return ["filter", self.any_list(d - 1), "join", [self.str_(0)] if r.random() < .6 else [], []]
+        if k < 0.73 and "markup" not in self.f or k < 0.705:
+            return self.truncate_()
         if k < 0.76:
             return ["cond", self.str_(d - 1), self.bool_(d - 1), self.str_(d - 1)]
         if k < 0.82:
@@ -187,6 +189,22 @@ class Gen:
             # replace on a safe string: argument escaping is filter-contract territory (C24)
             return ["filter", self.str_(d - 1), "upper", [], []]
         return ["filter", self.str_(d - 1), "replace", [self.str_(0), self.str_(0)], []]
+
+    def truncate_(self):
+        """truncate around its tolerance boundary: a literal of known length L against
+        length + leeway in {L-1, L, L+1}; killwords true (cut exactly) or a text with spaces."""
+        r = self.r
+        text = r.choice(["abcdefghijklmnop", "ab cd ef gh ij kl", "x" * 12, "foo bar baz qux"])
+        L = r.randint(6, len(text))
+        s = text[:L]
+        leeway = r.choice([0, 1, 2, 5])
+        length = max(3, L - leeway + r.choice([-1, 0, 0, 1]))
+        end = r.choice(["...", "", "~"])
+        kill = True if " " not in s[:max(length - len(end), 0)] else r.random() < 0.5
+        args = [C(length), C(kill), C(end)]
+        if leeway != 5 or r.random() < 0.5:
+            args.append(C(leeway))
+        return ["filter", C(s), "truncate", args, []]
 
     # ------------------------------------------------------------ bools
     def bool_(self, d):
@@ -261,8 +279,13 @@ class Gen:
         k = r.random()
         if k < 0.6:
             return self.list_int(d)
-        if k < 0.8:
+        if k < 0.74:
             return N("ls")
+        if k < 0.8:
+            # unique: first occurrences, case-insensitive unless asked otherwise
+            subj = ["bin", "+", N("ls"), ["list", [C(x) for x in r.sample(["a", "A", "b", "Xy", "xy", "B"], 3)]]]
+            cs = r.choice([None, True, False])
+            return ["filter", ["filter", subj, "unique", [] if cs is None else [C(cs)], []], "list", [], []]
         if k < 0.9:
             return self.str_(d)
         return N("d1")
